@@ -492,6 +492,7 @@ class ContainerDecodeAbstract(Contract):
     registered in the table, and only ever adds table entries"""
     props = ()
     assumed = True
+    selects = staticmethod(lambda self_cls, args, kwargs=None: True)
 
     def __init__(self, cls):
         self.cls = cls
@@ -774,3 +775,173 @@ _reg_prev2 = register
 def register(reg):      # noqa: F811
     _reg_prev2(reg)
     reg.add(DecodeBlock())
+
+
+# =============================================================================================== container scalars
+# The bodies of the container writers contain `x.extend(<generator that allocates messages>)` statements, which are
+# outside the verifier's reach.  These contracts verify the *rest* of each body: the dropped statements are listed in
+# the evidence, and the assumption is that each only fills the repeated / map field it names (and allocates).
+
+def _is_fill(src):
+    return (".extend(" in src and src.split(".extend(")[0].count(".") == 1) or src.startswith("self._write_protobuf_aux_data(")
+
+
+class ModuleToPbScalars(WriterBase):
+    target = "module.py::Module._to_protobuf"
+    msg = "Module"
+    params = {"self": "ref:Module"}
+    drop_stmt = staticmethod(_is_fill)
+    part_note = "all statements except the fills of aux_data, proxies, sections, symbols"
+    ENUMS = {"isa": "Module.ISA", "file_format": "Module.FileFormat", "byte_order": "Module.ByteOrder"}
+
+    def pre(self, c, a):
+        m = a.self.t
+        ep = c.get("entry_point", m)
+        en = [z3.And(is_VEnum(c.get(k, m)), ecls(c.get(k, m)) == c.eng.schema.class_id(q),
+                     RANGES["int32"][0] <= enum_(c.get(k, m)), enum_(c.get(k, m)) <= RANGES["int32"][1])
+              for k, q in self.ENUMS.items()]
+        return {"in_schema_range": z3.And(is_VUuid(c.get("uuid", m)), is_VStr(c.get("binary_path", m)), is_VStr(c.get("name", m)),
+                                          in_rng(c.get("preferred_addr", m), U64), in_rng(c.get("rebase_delta", m), I64), *en,
+                                          z3.Or(is_VNone(ep), z3.And(is_VRef(ep), is_VUuid(c.get("uuid", ref(ep))))))}
+
+    def post(self, c0, c1, a, res):
+        m, p = a.self.t, res.t
+        ep = c0.get("entry_point", m)
+        from pyvc.iomodel import BSeq
+        out = {"new_message": NEW(c0, a, p), "uuid": f(c1, "Module", "uuid", p) == uuid_blob(c0.get("uuid", m)),
+               "entry_point": f(c1, "Module", "entry_point", p) == z3.If(is_VNone(ep), blob_val(z3.Empty(BSeq)),
+                                                                       uuid_blob(c0.get("uuid", ref(ep))))}
+        for k in ("binary_path", "name", "preferred_addr", "rebase_delta"):
+            out[k] = f(c1, "Module", k, p) == c0.get(k, m)
+        for k in self.ENUMS:
+            out[k + "_number"] = f(c1, "Module", k, p) == VInt(enum_(c0.get(k, m)))
+        return out
+
+
+class SectionToPbScalars(WriterBase):
+    target = "section.py::Section._to_protobuf"
+    msg = "Section"
+    params = {"self": "ref:Section"}
+    drop_stmt = staticmethod(_is_fill)
+    part_note = "all statements except the fills of byte_intervals and section_flags"
+
+    def pre(self, c, a):
+        s = a.self.t
+        return {"in_schema_range": z3.And(is_VUuid(c.get("uuid", s)), is_VStr(c.get("name", s)))}
+
+    def post(self, c0, c1, a, res):
+        s, p = a.self.t, res.t
+        return {"new_message": NEW(c0, a, p), "uuid": f(c1, "Section", "uuid", p) == uuid_blob(c0.get("uuid", s)),
+                "name": f(c1, "Section", "name", p) == c0.get("name", s)}
+
+
+class IrToPbScalars(WriterBase):
+    target = "ir.py::IR._to_protobuf"
+    msg = "IR"
+    variant = "scalars"
+    props = ("C02", "C01", "C17")
+    params = {"self": "ref:IR"}
+    selects = staticmethod(lambda self_cls, args, kwargs=None: False)
+    segment = (lambda src: src.startswith("proto_ir = "), lambda src: src.startswith("proto_ir.modules.extend("))
+    part_note = "the statements before the module list is filled (uuid, version)"
+
+    def pre(self, c, a):
+        i = a.self.t
+        return {"in_schema_range": z3.And(is_VUuid(c.get("uuid", i)), in_rng(c.get("version", i), RANGES["uint32"]))}
+
+    def post(self, c0, c1, a, res):
+        return {}
+
+    def frame_obligations(self, eng, c0, c1, a):
+        # the segment has no result: its effect is stated on the only message allocated in it
+        i = a.self.t
+        p = fresh("p", Int)
+        return {"uuid_and_version_fields": z3.ForAll([p], z3.Implies(
+            z3.And(NEW(c0, a, p), z3.Select(c1.arr("$alive"), p)),
+            z3.And(f(c1, "IR", "uuid", p) == uuid_blob(c0.get("uuid", i)), f(c1, "IR", "version", p) == c0.get("version", i))))}
+
+
+class ModuleEntryPoint(IoContract):
+    """Module._decode_protobuf, entry-point segment: no entry point for an empty field; otherwise the very object the table
+    holds for that UUID, which must be a CodeBlock (DeserializationError if missing or of another kind)"""
+    target = "module.py::Module._decode_protobuf"
+    variant = "entry_point"
+    props = ("C09", "C17", "C02", "C01")
+    inline_callees = INL
+    self_cls = "Module"
+    params = {"proto_module": "pb:Module", "uuid": "val", "ir": "ref:IR"}
+    closure = {"m": "ref:Module"}
+    selects = staticmethod(lambda self_cls, args, kwargs=None: False)
+    segment = (lambda src: src.startswith("m.entry_point = None"), lambda src: src.startswith("m.symbols.update("))
+    part_note = "the statements from `m.entry_point = None` up to (not including) `m.symbols.update(...)`"
+    modifies = {"entry_point": lambda c0, a, r: r == a.m.t}
+
+    def pre(self, c, a):
+        return {"message_typed": c.eng.schema.pb.typed(c, a.proto_module.t, "Module"), "table_typed": table_typed(c, a.ir.t),
+                "is_ir": c.isinst(a.ir.t, "IR")}
+
+    def _p(self, c0, a):
+        b = msg_uuid(c0, "Module", "entry_point", a.proto_module.t)
+        return b, lookup(c0, a.ir.t, VUuid(b2u(b)))
+
+    def raises(self, c0, a):
+        b, v = self._p(c0, a)
+        return {"ValueError": z3.And(z3.Length(b) != 0, z3.Length(b) != 16),
+                "DeserializationError": z3.And(z3.Length(b) == 16, z3.Not(z3.And(is_VRef(v), c0.isinst(ref(v), "CodeBlock"))))}
+
+    def post(self, c0, c1, a, res):
+        b, v = self._p(c0, a)
+        return {"empty_field_means_no_entry_point": z3.Implies(z3.Length(b) == 0, is_VNone(c1.get("entry_point", a.m.t))),
+                "entry_point_is_the_table_entry": z3.Implies(z3.Length(b) == 16, c1.get("entry_point", a.m.t) == v)}
+
+
+_reg_prev3 = register
+
+
+def register(reg):      # noqa: F811
+    _reg_prev3(reg)
+    for c in (ModuleToPbScalars(), SectionToPbScalars(), IrToPbScalars(), ModuleEntryPoint()):
+        reg.add(c)
+
+
+class ByteIntervalToPbScalars(WriterBase):
+    """ByteInterval._to_protobuf up to the block list: uuid, the address-presence flag (an address of 0 is present), address,
+    size, contents"""
+    target = "byteinterval.py::ByteInterval._to_protobuf"
+    msg = "ByteInterval"
+    variant = "scalars"
+    params = {"self": "ref:ByteInterval"}
+    segment = (lambda src: src.startswith("proto_interval = "), lambda src: src.startswith("def to_proto_block"))
+    part_note = "the statements before the nested helper to_proto_block (uuid, has_address, address, size, contents)"
+
+    def pre(self, c, a):
+        b = a.self.t
+        ad = c.get("_address", b)
+        return {"in_schema_range": z3.And(is_VUuid(c.get("uuid", b)), z3.Or(is_VNone(ad), in_rng(ad, U64)),
+                                          in_rng(c.get("_size", b), U64))}
+
+    def post(self, c0, c1, a, res):
+        return {}
+
+    def frame_obligations(self, eng, c0, c1, a):
+        from pyvc.iomodel import arr_seq
+        b = a.self.t
+        ad = c0.get("_address", b)
+        p = fresh("p", Int)
+        items, n = z3.Select(c0.arr("contents#items"), b), z3.Select(c0.arr("contents#len"), b)
+        fields = z3.And(
+            f(c1, "ByteInterval", "uuid", p) == uuid_blob(c0.get("uuid", b)),
+            f(c1, "ByteInterval", "has_address", p) == VBool(z3.Not(is_VNone(ad))),
+            z3.Implies(is_VInt(ad), f(c1, "ByteInterval", "address", p) == ad),
+            z3.Implies(is_VNone(ad), f(c1, "ByteInterval", "address", p) == VInt(0)),
+            f(c1, "ByteInterval", "size", p) == c0.get("_size", b),
+            f(c1, "ByteInterval", "contents", p) == blob_val(arr_seq(items, n)))
+        return {"scalar_fields": z3.ForAll([p], z3.Implies(z3.And(NEW(c0, a, p), z3.Select(c1.arr("$alive"), p)), fields))}
+
+
+_reg_prev4 = register
+
+
+def register(reg):      # noqa: F811
+    _reg_prev4(reg)
+    reg.add(ByteIntervalToPbScalars())
